@@ -63,6 +63,7 @@ def worker(job):
     rts = importlib.import_module("pandapipes.timeseries.run_time_series")
     patched, ass = H.install(numba_pyfunc=False)
     spec, steps, fail = job["spec"], job["steps"], set(job["fail"])
+    cut = set(job.get("cut") or [])          # steps whose profile takes the only feeder out of service
     cont = job["continue"]
     is_gas = spec["fluid"] != "water"
     ctrl_elems = job["controlled"]            # list of (table, index)
@@ -93,9 +94,13 @@ def worker(job):
         for tbl, ix in ctrl_elems:
             cols["%s_%s" % (tbl, ix)] = np.array([prof_sym(tbl, ix, t) for t in range(nrows)], dtype=object)
         ds = DFData(pd.DataFrame(cols))
+        ds_on = DFData(pd.DataFrame({"feeder_on": np.array([t not in cut for t in range(nrows)], dtype=bool)}))
         for tbl, ix in ctrl_elems:
             control.ConstControl(net, element=tbl, variable="mdot_kg_per_s", element_index=[ix], data_source=ds,
                                  profile_name=["%s_%s" % (tbl, ix)])
+        if cut:
+            control.ConstControl(net, element="ext_grid", variable="in_service", element_index=list(net.ext_grid.index),
+                                 data_source=ds_on, profile_name=["feeder_on"] * len(net.ext_grid))
         rts.run_time_step = rts_wrapper
         exc = None
         try:
@@ -136,11 +141,12 @@ def worker(job):
 
     def bad(fp, what):
         viol.append({"fingerprint": fp, "detail": {"job": job["name"], "what": what},
-                     "replay": {"kind": "ts", "spec": spec, "steps": steps, "fail": sorted(fail), "continue": cont,
-                                "controlled": ctrl_elems, "values": {}}})
+                     "replay": {"kind": "ts", "spec": spec, "steps": steps, "fail": sorted(fail - cut), "cut": sorted(cut),
+                                "continue": cont, "controlled": ctrl_elems, "values": {}}})
     if pt.exc is not None:
         return finish_worker(job, ext, [], errors=["time series raised %r" % (pt.exc,)])
     out = pt.value
+    fail = fail | cut              # from here on: every step that must be flagged as failed
     # --- divergence handling
     first_fail = next((t for t in steps if t in fail), None)
     if out["exc"] is not None:
@@ -217,6 +223,7 @@ def replay(rs):
     from pandapower.timeseries import DFData
     from pandapipes.timeseries import run_timeseries
     spec, steps, fail, cont = rs["spec"], rs["steps"], set(rs["fail"]), rs["continue"]
+    cut = set(rs.get("cut") or [])
     is_gas = spec["fluid"] != "water"
     nrows = max(steps) + 1
     base = 0.05 if is_gas else 0.4
@@ -227,9 +234,14 @@ def replay(rs):
     net, _ = nets.build(spec, nets.concrete_valuer({}))
     cols = {"%s_%s" % (tbl, ix): np.array([val(t) for t in range(nrows)]) for tbl, ix in rs["controlled"]}
     ds = DFData(pd.DataFrame(cols))
+    ds_on = DFData(pd.DataFrame({"feeder_on": np.array([t not in cut for t in range(nrows)], dtype=bool)}))
     for tbl, ix in rs["controlled"]:
         control.ConstControl(net, element=tbl, variable="mdot_kg_per_s", element_index=[ix], data_source=ds,
                              profile_name=["%s_%s" % (tbl, ix)])
+    if cut:
+        control.ConstControl(net, element="ext_grid", variable="in_service", element_index=list(net.ext_grid.index),
+                             data_source=ds_on, profile_name=["feeder_on"] * len(net.ext_grid))
+    fail = fail | cut
     cap, flags = {}, {}
 
     def capture(net_, time_step, pf_converged, ctrl_converged, ts_variables):
@@ -283,6 +295,12 @@ def jobs(tier, seed):
                         out.append({"name": "%s/ctrl%d/steps%s/fail%s/%s" % (s["name"], ci, "".join(map(str, st)), "".join(map(str, fl)) or "-",
                                                                              "cont" if cont else "stop"),
                                     "spec": s, "controlled": ce, "steps": st, "fail": fl, "continue": cont})
+        # a step whose profile takes the only feeder out of service: the run fails before any Newton loop
+        for st, ct in (([0, 1, 2], [1]), ([0, 1], [1]), ([1, 0], [1])):
+            for cont in (True, False):
+                out.append({"name": "%s/ctrl0/steps%s/cut%s/%s" % (s["name"], "".join(map(str, st)), "".join(map(str, ct)),
+                                                                   "cont" if cont else "stop"),
+                            "spec": s, "controlled": ctrls[0], "steps": st, "fail": [], "cut": ct, "continue": cont})
     return out
 
 
